@@ -859,6 +859,75 @@ def run(c):
             c.count(("prim", coords, fam, case))
     c.cov["whfast_primitive_histogram"] = prim_hist
 
+    # ======================================================================= search: repeated output calls while unsynchronised
+    # integrate() to output times that are not whole numbers of steps away (exact_finish_time=1: the last step is shortened,
+    # dt restored afterwards) with safe_mode=0 / keep_unsynchronized=1.  The pending half step must be completed with the OLD dt
+    # before dt changes: the run must stay in the class of the same call sequence with the default (synchronising) options.
+    OUT = []
+    for ty in ("1", "4", "10,6,4", "8,6,4", "h10,6,4", "cm3", "cl4"):
+        OUT.append(dict(integrator="saba", type=ty))
+    for co in (0, 3, 11):
+        OUT.append(dict(integrator="whfast", coordinates="jacobi", kernel="default", corrector=co, corrector2=0))
+    OUT.append(dict(integrator="whfast", coordinates="democraticheliocentric", kernel="default", corrector=0, corrector2=0))
+    OUT.append(dict(integrator="whfast", coordinates="whds", kernel="default", corrector=0, corrector2=0))
+    OUT.append(dict(integrator="mercurius", L="mercury"))
+    OUT.append(dict(integrator="eos", phi0="lf4", phi1="lf", n=2))
+    if not c.thorough:
+        OUT = [o for i_, o in enumerate(OUT) if i_ % 2 == (c.seed % 2) or o["integrator"] in ("mercurius",) or o.get("type") in ("10,6,4", "4")]
+    nout = 0
+    for oi, base in enumerate(OUT):
+        rng = c.rng.fork()
+        fam = oi % 2
+        m0, bodies, G = gen_system(rng, fam)
+        boost = [rng.normal() for _ in range(3)] + [0.3 * rng.normal() for _ in range(3)]
+        Pin = 2 * math.pi * math.sqrt(bodies[0][1] ** 3 / (G * m0))
+        dto = Pin / rng.uniform(30, 45)
+        Tout = dto * rng.uniform(7.2, 14.8)            # output cadence: not a multiple of dt
+        ncalls = 120 if c.thorough else 40
+        resv = {}
+        for mode in ("reference", "unsynchronised"):
+            cf = dict(base)
+            cf["safe_mode"] = 1 if mode == "reference" else 0
+            if mode == "unsynchronised" and base["integrator"] in ("saba", "whfast"):
+                cf["keep_unsynchronized"] = 1
+            try:
+                sim = build_sim(rebound, m0, bodies, G, boost, cf, dto)
+                i0 = invariants(raw(sim), G)
+                t0 = sim.t
+                wE = wP = wL = wR = 0.0
+                for i_ in range(1, ncalls + 1):
+                    sim.integrate(sim.t + Tout)             # exact_finish_time=1 (default): last step shortened, dt restored afterwards
+                    if i_ % 9 == 0:
+                        sim.integrate(sim.t + 3 * dto, exact_finish_time=0)     # and an inexact call in between
+                    sim.synchronize()                       # output: with keep_unsynchronized the internal state must survive this
+                    iv = invariants(raw(sim), G)
+                    wE = max(wE, abs(iv["E"] - i0["E"]) / i0["Escale"])
+                    wP = max(wP, norm([a - b for a, b in zip(iv["P"], i0["P"])]) / i0["Pscale"])
+                    wL = max(wL, norm([a - b for a, b in zip(iv["L"], i0["L"])]) / i0["Lscale"])
+                resv[mode] = (wE, wP, wL)
+            except Exception as ex:
+                viol.append(("outputs:crash:" + cfg_key(cf), "repeated integrate() output calls raised %r with %s" % (ex, cfg_key(cf)), dict(cfg=cf, family=fam)))
+        if len(resv) != 2:
+            continue
+        nout += 1
+        c.count(("outputs", cfg_key(base), fam))
+        (rE, rP, rL), (uE, uP, uL) = resv["reference"], resv["unsynchronised"]
+        tag = cfg_key(base)
+        worst["outputs:%s:dE unsync/ref" % base["integrator"]] = max(worst.get("outputs:%s:dE unsync/ref" % base["integrator"], 0.0), uE / rE if rE > 0 else 0.0)
+        worst["outputs:%s:dL" % base["integrator"]] = max(worst.get("outputs:%s:dL" % base["integrator"], 0.0), uL)
+        rep = dict(cfg=base, family=fam, m0=m0, bodies=bodies, G=G, boost=boost, dt=dto, output_cadence=Tout, calls=ncalls,
+                   reference=dict(dE=rE, dP=rP, dL=rL), unsynchronised=dict(dE=uE, dP=uP, dL=uL))
+        bP, bL, bR, bE = thresholds(dict(base, safe_mode=0))
+        fac_ = 50.0 if base["integrator"] == "eos" else 10.0      # EOS merges whole drifts when unsynchronised: 3.9x measured on the clean tree
+        if uE > fac_ * rE + 1e-12:
+            viol.append(("outputs:E:" + tag, "%s with safe_mode=0%s and repeated integrate() output calls (shortened last steps): relative energy error %.3g, %.0f times that of the same "
+                         "call sequence with the synchronising defaults (%.3g)" % (tag, "/keep_unsynchronized=1" if base["integrator"] in ("saba", "whfast") else "", uE, uE / rE if rE > 0 else float("inf"), rE), rep))
+        if uP > bP or rP > bP:
+            viol.append(("outputs:P:" + tag, "%s with repeated integrate() output calls: dP/P = %.3g (unsynchronised) / %.3g (reference)" % (tag, uP, rP), rep))
+        if (uL > bL or rL > bL) and not (base["integrator"] == "whfast" and base["coordinates"] == "barycentric"):
+            viol.append(("outputs:L:" + tag, "%s with repeated integrate() output calls: dL/L = %.3g (unsynchronised) / %.3g (reference)" % (tag, uL, rL), rep))
+    c.cov["repeated_output_call_runs"] = nout
+
     # ======================================================================= search: TRACE pericentre switch, all three peri modes
     # an eccentric planet triggers current_C (pericentre approach); PARTIAL_BS keeps the interaction/jump/kepler sequence
     # during the approach, FULL_BS / FULL_IAS15 integrate the whole system: all three must stay in the same energy class
@@ -1031,6 +1100,7 @@ def run(c):
     dims["histories: pericentre switches (TRACE, all peri modes)"] = sum(peri_hits.values())
     dims["histories: close encounters (hybrid / adaptive schemes)"] = sum(v for k, v in hist.items() if k in ("mercurius", "trace"))
     dims["histories: merging collisions"] = nm
+    dims["time: repeated integrate() output calls with shortened last steps, keep_unsynchronized=1 / safe_mode=0"] = nout
     dims["options: safe_mode=0"] = n_unsafe[0]
     dims["options: non-default adaptive options"] = n_nondefault[0]
     dims["geometry: moving centre of mass away from the origin"] = ran
